@@ -6,8 +6,9 @@ import numpy as np
 
 NID = 8
 TAB = {
-    "taxa": {"name": ["tA", "tB", "tC", "tA", "tB", "tD", "tE", "tC"], "grp": [2, 1, 1, 2, 3, 1, 3, 2]},
-    "vrnt": {"chr": [1, 1, 2, 2, 1, 3, 2, 3], "pos": [10, 20, 10, 30, 20, 5, 15, 5],
+    "taxa": {"name": ["tA", "tB", "tC", "tA", "tB", "tD", "tE", "tC"], "grp": [2, -1, -1, 2, 3, -1, 3, 2]},      # group labels may be negative (-1: "unknown family")
+    "vrnt": {"chr": [0, 0, 2, 2, 0, 3, 2, 3],       # chromosome numbering may start at 0
+             "pos": [10, 20, 10, 30, 20, 5, 15, 5],
              "name": ["v0", "v1", "v2", "v3", "v1", "v5", "v2", "v7"], "gen": [10, 25, 5, 40, 25, 0, 20, 3],
              "xo": [50, 10, 50, 20, 10, 50, 30, 25], "hap": [0, 0, 1, 1, 0, 2, 1, 2],
              "alt": ["A", "C", "G", "T", "C", "A", "G", "T"], "ref": ["T", "G", "C", "A", "G", "T", "C", "A"],
